@@ -169,7 +169,7 @@ func (c05Driver) Generate(t *tape.Tape, tier string) core.Case {
 	c.Injected = g.Injected
 	// order trap: an older revision of one module is part of the set as well
 	rt := t.Sub("revisions")
-	if name := addOlderRevisionInc(rt, g.S, 6, false, rt.Sub("includes").Chance(1, 4)); name != "" {
+	if name := addOlderRevisionInc(rt, g.S, 6, false, rt.Sub("includes").Chance(1, 4), rt.Sub("keep-augments").Chance(1, 2)); name != "" {
 		c.Injected = append(c.Injected, "two-revisions-of-"+name)
 	}
 	// order trap: two different modules declare the same namespace (every
